@@ -1,6 +1,6 @@
 (* C11 — hand-written tables the generated ones (Gen/RestRoutes.v, Gen/RestClient.v) are checked against, and the boolean
    obligations over them. Definitions only (used by Proofs/C11_*.v and, for the offending entries, by Diag/C11.v). *)
-From V Require Import Base.Common Base.C11_Http Gen.RestRoutes Gen.RestClient Model.C11_Rest Model.C11_Check.
+From V Require Import Base.Common Base.C11_Http Base.C11_RouteOrder Gen.RestRoutes Gen.RestClient Model.C11_Rest Model.C11_Check.
 Open Scope string_scope.
 Open Scope list_scope.
 
@@ -90,15 +90,32 @@ Definition rroute_eqb (a b : rroute) : bool :=
   let '(m, t, h) := a in let '(m', t', h') := b in
   String.eqb m m' && list_eqb tseg_eqb t t' && N.eqb (rhandler_idx h) (rhandler_idx h').
 
-(* names of the generated routes that differ from the hand-written table at the same position *)
-Fixpoint routes_diff (rs : list (string * string * string * string)) (sp : list rroute) : list string :=
-  match rs, sp with
-  | [], [] => []
-  | r :: rs', s :: sp' =>
-      (if match compile_rest [r] with [c] => rroute_eqb c s | _ => false end then [] else [fst (fst (fst r))]) ++ routes_diff rs' sp'
-  | r :: rs', [] => fst (fst (fst r)) :: routes_diff rs' []
-  | [], _ :: _ => ["(a route of route_spec is missing from routes())"]
-  end.
+(* ---- the route table obligation, insensitive to the order of routes that cannot answer a common request ----
+   Two routes are apart when their methods differ (the only interaction of routes with different methods is the
+   "some route matched the path" flag behind 405, which is a disjunction) or when no request path is answered by both
+   templates (tpl_apart: exactly or through the StrictSlash redirect). routes_equiv rs1 rs2: rs2 is rs1 up to exchanging
+   neighbours that are apart, i.e. a permutation of rs1 in which every two routes that are NOT apart keep their relative
+   order (Base/C11_RouteOrder.v: trace_equiv). Proofs/C11_Rest.v: routes_equiv_resolve. *)
+Definition rroute_apart (a b : rroute) : bool :=
+  let '(m, t, _) := a in let '(m', t', _) := b in negb (String.eqb m m') || tpl_apart t t'.
+Definition routes_equiv (rs1 rs2 : list rroute) : bool := trace_equiv rroute_eqb rroute_apart rs1 rs2.
+
+(* naming the differences (Diag/C11.v): METHOD /template *)
+Definition show_rroute (r : rroute) : string :=
+  let '(m, t, _) := r in (m ++ " " ++ show_tpl t)%string.
+
+(* the real differences between the generated table and the hand-written one: a route (method, template, handler class)
+   present on one side only, or two routes that are not apart and are registered in the opposite order. [] exactly
+   when routes_equiv holds. *)
+Definition routes_diff (rs : list (string * string * string * string)) (sp : list rroute) : list string :=
+  let c := compile_rest rs in
+  if routes_equiv c sp then [] else
+  let d := map (fun r => ("in routes() but not in route_spec: " ++ show_rroute r)%string) (surplus rroute_eqb c sp)
+        ++ map (fun r => ("in route_spec but not in routes(): " ++ show_rroute r)%string) (surplus rroute_eqb sp c)
+        ++ map (fun xy : rroute * rroute => ("registration order matters and differs from route_spec: " ++ show_rroute (fst xy)
+                                              ++ " is registered before " ++ show_rroute (snd xy))%string)
+               (inverted rroute_eqb rroute_apart c sp) in
+  match d with [] => ["routes() is not route_spec up to the order of routes that are apart"] | _ => d end.
 
 Definition centry_eqb (a b : string * string * bool) : bool :=
   String.eqb (fst (fst a)) (fst (fst b)) && String.eqb (snd (fst a)) (snd (fst b)) && Bool.eqb (snd a) (snd b).
